@@ -12,11 +12,12 @@ import MemchrModel.Driver.PackedPair
 import MemchrModel.Driver.Swar
 import MemchrModel.Driver.MemchrApi
 import MemchrModel.Driver.Memmem
+import MemchrModel.Driver.Alias
 
 open Memchr Memchr.Driver
 
 def handlers : List (String → List String → Option String) :=
-  [handleGeneric, handleIsEqualRk, handleTwoWay, handlePrefilter, handleShiftOrPair, handlePackedPair, handleSwar, handleMemchrApi, handleMemmem]
+  [handleGeneric, handleIsEqualRk, handleTwoWay, handlePrefilter, handleShiftOrPair, handlePackedPair, handleSwar, handleMemchrApi, handleMemmem, handleAlias]
 
 def step (line : String) : String :=
   match line.trimAscii.toString.splitOn " " with
